@@ -20,6 +20,8 @@ CALLS = [
     ("call", [GATT_READ_REQ], [GATT_READ_RESP, GATT_ERR], "tag=3", "tag=3", 5120),
     ("call", [GATT_READ_REQ], [GATT_READ_RESP, GATT_ERR], "tag=4", "tag=4", 7168),
     ("call", [LIST_REQ], [LIST_DONE, LIST_SENSOR], f"not={LIST_DONE}", f"is={LIST_DONE}", 61440),
+    # a write: shares the error response type with the reads above, not the data response type
+    ("call", [75], [83, GATT_ERR], "tag=3", "tag=3", 6144),
 ]
 TRAFFIC = [
     [H(PING_REQ)], [H(TIME_REQ)], [H(PING_RESP)], [H(SWITCH_STATE, tag=1)], [H(SENSOR_STATE, tag=2)], [H(0)], [H(124)], [H(70000)],
